@@ -93,6 +93,8 @@ class Canon(object):
             return ("count", repr(o))
         if t is S.LThread:
             return ("T", o.id)
+        if t is S.Scheduler or t is S.Point:
+            return ("sched",)
         if isinstance(o, (types.FunctionType, types.BuiltinFunctionType, type, types.ModuleType)):
             return ("fn", getattr(o, "__qualname__", getattr(o, "__name__", "?")))
         if t is types.MethodType:
@@ -149,7 +151,9 @@ def thread_frames(t, file_prefixes):
 
 def state_key(sched, roots, file_prefixes, id_labels=None, extra=None, digest=True):
     c = Canon(id_labels)
-    parts = [("clock", sched.clock)]
+    me = S.current_lthread()
+    parts = [("clock", sched.clock), ("cur", None if me is None else me.id,
+                                      None if sched.last_local is None else sched.last_local.id)]
     for t in sched.threads:
         if t.state == "done":
             parts.append(("T", t.id, "done"))
@@ -158,10 +162,15 @@ def state_key(sched, roots, file_prefixes, id_labels=None, extra=None, digest=Tr
         if t is sched.current or t.state in ("ready", "blocked"):
             for f in thread_frames(t, file_prefixes):
                 loc = f.f_locals
-                fr.append((f.f_code.co_qualname, f.f_lasti,
+                # f_lineno, not f_lasti: in CPython 3.12 the saved instruction offset of a *caller* frame
+                # depends on whether the call site was specialised yet (observed: 74 vs 92 for the same
+                # position), which made keys differ between identical executions.  Position inside a line
+                # is still determined by the callee frames above it, the thread's block kind and the last
+                # scheduling point (kind, info) recorded below.
+                fr.append((f.f_code.co_qualname, f.f_lineno,
                            tuple((k, c.enc(loc[k])) for k in sorted(loc))))
         parts.append(("T", t.id, t.state, t.block_kind if t.state == "blocked" else None,
-                      t.deadline if t.state == "blocked" else None, tuple(fr)))
+                      t.deadline if t.state == "blocked" else None, t.last_point, tuple(fr)))
     for r in roots:
         parts.append(c.enc(r))
     if extra is not None:
